@@ -295,4 +295,23 @@ example : (listed (run exSt0 exOps) 0).map (fun g => (g.startDTS, g.endDTS, g.fo
     ((run exSt0 exOps).stream 1).targetDur = 1 ∧ ((run exSt0 exOps).stream 1).partTargetDur = 500000000 ∧
     (mediaPlaylist (run exSt0 exOps) 0 false).serverControl = some (1250000000, 6000000000) := by decide
 
+set_option maxRecDepth 100000 in
+/-- hypotheses of `c03_part_target_value` (an open segment and an open part exist in the leading stream) and of
+`c03_pdt` (a listed segment at position 2 of the audio stream) -/
+example : ((run exSt0 exOps).stream 0).nextSegment.isSome = true ∧ ((run exSt0 exOps).stream 0).nextPart.isSome = true ∧
+    ((listed (run exSt0 exOps) 1)[2]?).isSome = true := by decide
+
+/-- MPEG-TS (H264): hypotheses of `c03_pdt_ts` -/
+def tsCfg : Cfg :=
+  { variant := .mpegts, segmentCount := 3, segmentMinDur := 1000000000, partMinDur := 0, segmentMaxSize := 1000000,
+    tracks := [{ codec := .h264, clockRate := 90000 }] }
+def tsSt0 : State := startState tsCfg.withDefaults
+theorem tsStart : start tsCfg = .ok tsSt0 := rfl
+set_option maxRecDepth 100000 in
+example : ((run tsSt0 [vop 0 true 1, vop 1 false 0]).tcfg 0).codec = .h264 ∧
+    Accepted (run tsSt0 [vop 0 true 1, vop 1 false 0]) (vop 2 true 0) ∧
+    (write (run tsSt0 [vop 0 true 1, vop 1 false 0]) (vop 2 true 0)).2 = .ok ∧
+    ((write (run tsSt0 [vop 0 true 1, vop 1 false 0]) (vop 2 true 0)).1.stream 0).nextSegmentID ≠
+      ((run tsSt0 [vop 0 true 1, vop 1 false 0]).stream 0).nextSegmentID := by decide
+
 end Hls.Props.C03
